@@ -158,6 +158,13 @@ class TVar(T):
 
 
 @dataclass(frozen=True)
+class Unsup(T):
+    """Annotated[base, Unsupported]: an alternative apischema must ignore in unions"""
+
+    base: T
+
+
+@dataclass(frozen=True)
 class Std(T):
     kind: str  # uuid date datetime time decimal bytes path ipv4 ... pattern
 
@@ -172,7 +179,7 @@ BOOL = Prim("bool")
 def walk(t: T):
     """pre-order iterator over all sub-specs"""
     yield t
-    if isinstance(t, (NewT, Con)):
+    if isinstance(t, (NewT, Con, Unsup)):
         yield from walk(t.base)
     elif isinstance(t, Uni):
         for a in t.alts:
@@ -261,6 +268,8 @@ def short(t: T) -> str:
         return "~" + t.name
     if isinstance(t, Std):
         return "std:" + t.kind
+    if isinstance(t, Unsup):
+        return f"Unsup({short(t.base)})"
     return repr(t)
 
 
